@@ -3,10 +3,7 @@
 
 use std::{
     collections::BTreeMap,
-    sync::{
-        Arc,
-        OnceLock,
-    },
+    sync::OnceLock,
 };
 
 use astria_core::{
@@ -41,6 +38,7 @@ use astria_core::{
 };
 use bytes::Bytes;
 use cnidarium::{
+    StateDelta,
     StateRead as _,
     Storage,
     TempStorage,
@@ -65,6 +63,7 @@ use super::{
     Config,
 };
 use crate::{
+    accounts::StateWriteExt as _,
     app::{
         vote_extension::Handler as VeHandler,
         App,
@@ -97,6 +96,11 @@ pub(crate) fn asset_denoms() -> Vec<Denom> {
     ]
 }
 
+pub(crate) fn denom(i: u8) -> Denom {
+    let d = asset_denoms();
+    d[i as usize % d.len()].clone()
+}
+
 pub(crate) fn asset_id(d: &Denom) -> AssetId {
     *d.to_ibc_prefixed().as_bytes()
 }
@@ -115,7 +119,8 @@ pub(crate) struct Keys {
 impl Keys {
     pub(crate) fn new(seed: u64, n: usize, nv: usize) -> Self {
         let mut rng = Rng::new(seed ^ 0x6b65_7973);
-        let keys: Vec<SigningKey> = (0..n).map(|_| SigningKey::from(rng.array32())).collect();
+        // one more key than accounts: index n is a "stranger" that never had funds
+        let keys: Vec<SigningKey> = (0..=n).map(|_| SigningKey::from(rng.array32())).collect();
         let addrs = keys.iter().map(SigningKey::address_bytes).collect();
         let vkeys = (0..nv).map(|_| SigningKey::from(rng.array32())).collect();
         Self {
@@ -144,31 +149,36 @@ impl Keys {
     pub(crate) fn vkey(&self, i: u8) -> &SigningKey {
         &self.vkeys[i as usize % self.vkeys.len()]
     }
+
+    pub(crate) fn vkey_by_addr(&self, a: &Addr) -> Option<&SigningKey> {
+        self.vkeys.iter().find(|k| k.address_bytes() == *a)
+    }
 }
 
+pub(crate) const ACTION_NAMES: [&str; 18] = [
+    "RollupDataSubmission",
+    "Transfer",
+    "Ics20Withdrawal",
+    "InitBridgeAccount",
+    "BridgeLock",
+    "BridgeUnlock",
+    "BridgeTransfer",
+    "BridgeSudoChange",
+    "IbcRelay",
+    "ValidatorUpdate",
+    "FeeAssetChange",
+    "FeeChange",
+    "IbcRelayerChange",
+    "SudoAddressChange",
+    "IbcSudoChange",
+    "RecoverIbcClient",
+    "CurrencyPairsChange",
+    "MarketsChange",
+];
+
 pub(crate) fn fee_table(variant: u8) -> BTreeMap<&'static str, Option<(u128, u128)>> {
-    let names = [
-        "RollupDataSubmission",
-        "Transfer",
-        "Ics20Withdrawal",
-        "InitBridgeAccount",
-        "BridgeLock",
-        "BridgeUnlock",
-        "BridgeTransfer",
-        "BridgeSudoChange",
-        "IbcRelay",
-        "ValidatorUpdate",
-        "FeeAssetChange",
-        "FeeChange",
-        "IbcRelayerChange",
-        "SudoAddressChange",
-        "IbcSudoChange",
-        "RecoverIbcClient",
-        "CurrencyPairsChange",
-        "MarketsChange",
-    ];
     let mut m = BTreeMap::new();
-    for (i, n) in names.iter().enumerate() {
+    for (i, n) in ACTION_NAMES.iter().enumerate() {
         let i = i as u128;
         let v = match variant {
             0 => Some((i + 1, 1001 + i)),
@@ -273,24 +283,40 @@ pub(crate) struct Node {
     pub(crate) mempool: Mempool,
     /// Height of the last block whose Commit completed on this node.
     pub(crate) committed: u64,
-    /// While `Some(h)`, the node is down and comes back before height `h` is started.
+    /// While `Some(h)`, the node is down and comes back when height `h` starts.
     pub(crate) down_until: Option<u64>,
+    /// The node's application panicked or failed on a legal call; it takes no further part.
+    pub(crate) dead: bool,
+    /// What this node did during the current height (for the abstract-state signature).
+    pub(crate) path: String,
 }
 
 fn upgrades_handler(cfg: &Config) -> crate::upgrades::UpgradesHandler {
     UpgradesBuilder::new()
-        .set_aspen(Some(cfg.aspen))
+        .set_aspen(cfg.aspen)
         .set_blackburn(cfg.blackburn)
         .build()
         .into()
 }
 
 impl Node {
-    pub(crate) async fn new(idx: u8, cfg: &Config) -> Self {
+    /// Creates the node and runs InitChain (+ the Commit the consensus service issues after it).
+    pub(crate) async fn new(idx: u8, cfg: &Config, keys: &Keys) -> Self {
         let temp = TempStorage::new().await.expect("temp storage");
         let storage: Storage = (*temp).clone();
+        // balances in non-native assets cannot be expressed in the genesis file; they are written
+        // to the (empty) store before genesis, identically on every node
+        if !cfg.extra.is_empty() {
+            let mut delta = StateDelta::new(storage.latest_snapshot());
+            for (acct, asset, amount) in &cfg.extra {
+                delta
+                    .put_account_balance(&keys.addr(*acct), &denom(*asset), *amount)
+                    .expect("put balance");
+            }
+            storage.commit(delta).await.expect("pre-genesis commit");
+        }
         let mempool = Mempool::new(metrics(), cfg.parked_max, 100);
-        let app = App::new(
+        let mut app = App::new(
             storage.latest_snapshot(),
             mempool.clone(),
             upgrades_handler(cfg),
@@ -299,6 +325,15 @@ impl Node {
         )
         .await
         .expect("app");
+        app.init_chain(
+            storage.clone(),
+            genesis_state(cfg, keys),
+            genesis_validators(cfg, keys),
+            CHAIN_ID.to_string(),
+        )
+        .await
+        .expect("init_chain");
+        app.commit(storage.clone()).await.expect("commit genesis");
         Self {
             idx,
             _temp: temp,
@@ -307,11 +342,13 @@ impl Node {
             mempool,
             committed: 0,
             down_until: None,
+            dead: false,
+            path: String::new(),
         }
     }
 
     pub(crate) fn is_up(&self) -> bool {
-        self.app.is_some()
+        self.app.is_some() && !self.dead
     }
 
     /// Kill the process: the `App` (inter-block state, execution state machine, pending write
@@ -334,10 +371,6 @@ impl Node {
         .expect("app restart");
         self.app = Some(app);
         self.down_until = None;
-    }
-
-    pub(crate) fn app(&mut self) -> &mut App {
-        self.app.as_mut().expect("node is up")
     }
 }
 
@@ -386,6 +419,7 @@ pub(crate) fn commit_info_of(ext: &ExtendedCommitInfo) -> CommitInfo {
     }
 }
 
+#[derive(Clone)]
 pub(crate) struct BlockHeader {
     pub(crate) height: u64,
     pub(crate) time: Time,
@@ -452,8 +486,4 @@ pub(crate) fn vk_address(vk: &VerificationKey) -> Addr {
 
 pub(crate) fn ibc_prefixed(id: &AssetId) -> IbcPrefixed {
     IbcPrefixed::new(*id)
-}
-
-pub(crate) fn arc<T>(t: T) -> Arc<T> {
-    Arc::new(t)
 }
